@@ -38,7 +38,7 @@ TInit == /\ \/ mode = "t" /\ tid \in 1..Len(T)
 TNext == /\ verdict = "?"
          /\ IF mode = "t"
             THEN /\ verdict' = RespVerdict(T[tid])
-                 /\ PrintT(<<"V", T[tid].id, verdict', Drift(T[tid])>>)
+                 /\ PrintT(<<"V", T[tid].id, verdict', Drift(T[tid]), RespBroken(T[tid])>>)
             ELSE /\ verdict' = SweepVerdict(S[tid])
                  /\ PrintT(<<"S", S[tid].sid, S[tid].len, verdict', Len(S[tid].codes), NonReject(S[tid])>>)
          /\ UNCHANGED <<mode, tid>>
